@@ -364,6 +364,8 @@ def show(t):
     if not isinstance(t, tuple) or not t:
         return str(t)
     k = t[0]
+    if not isinstance(k, str):
+        return "<" + ", ".join(show(x) for x in t) + ">"
     if k == "c":
         return t[1]
     if k in ("n", "bv"):
